@@ -485,6 +485,11 @@ def hook_c19(binp, tier, seed, wd):
         mwh(binp, ["walk", fa, seed, runs, steps, mode])
         mwh(bin_mw, ["walk", fb, seed, runs, steps, mode])
         pairs.append((mode, fa, fb))
+    # sub-denoms of every accepted length (incl. ones the chain's token factory refuses), both builds
+    fa, fb = os.path.join(wd, "dual-scen-osmosis.ndjson"), os.path.join(wd, "dual-scen-miniwasm.ndjson")
+    mwh(binp, ["exec", os.path.join(ROOT, "scenarios", "C19.ndjson"), fa])
+    mwh(bin_mw, ["exec", os.path.join(ROOT, "scenarios", "C19.ndjson"), fb])
+    pairs.append(("scen", fa, fb))
     nl = 0
     dual_find = []
     for tag, fa, fb in pairs:
@@ -539,7 +544,7 @@ def hook_c19(binp, tier, seed, wd):
     for tag, fb, f in dual_find:
         viols.append((f"dual-{tag}", fb, f))
     # the miniwasm traces are also validated individually (wire atoms) by the caller through extra_traces
-    extra["_extra_traces"] = [(fb, f"miniwasm-{tag}") for tag, fa, fb in pairs]
+    extra["_extra_traces"] = [(fb, f"miniwasm-{tag}") for tag, fa, fb in pairs if tag != "scen"]
     return extra, viols
 
 
